@@ -303,6 +303,23 @@ impl Part for C13 {
                         }
                     }
                 }
+                if c.entry != Entry::SingleShotOpen {
+                    // ... and every aad length, with a small ciphertext
+                    for al in dense(if t { 2100 } else { 1100 }) {
+                        let ct = bytes(Fill::Mix, 20 + al % 3, 5, cfg.seed);
+                        let aad = bytes(Fill::Mix, al, 6, cfg.seed);
+                        let what = format!("{:?}(ciphertext {} bytes, aad {} bytes)", c.entry, ct.len(), al);
+                        let e = if c.entry == Entry::Open {
+                            no_panic(&mut out, &what, &r.open(&ct, &aad))
+                        } else {
+                            let mut b = ct.clone();
+                            no_panic(&mut out, &what, &r.open_ip(&mut b, &aad, &bytes(Fill::Mix, nt, 7, cfg.seed)))
+                        };
+                        if e.is_some() && e != Some(HpkeError::OpenError) {
+                            out.fail(format!("{}: failed with {:?}, want OpenError", what, e));
+                        }
+                    }
+                }
                 let ls = lens(t && c.entry != Entry::SingleShotOpen, &[nt]);
                 for &l in &ls {
                     for &f in &fills {
